@@ -115,6 +115,12 @@ class SubWriterTask(Process):
         if not self.running:
             # I was cancelled, so I'll cancel my underlying writer
             writer.cancel()
+        elif writer.docnum == writer.docbase:
+            # Another task took all the jobs before I got any: there is
+            # nothing to hand back. (Not cancel(): that would destroy the
+            # temporary storage the other tasks and the parent are using.)
+            writer._partial_segment()
+            resultqueue.put(None, timeout=5)
         else:
             if multisegment:
                 # Actually finish the segment and return it with no run
@@ -275,9 +281,11 @@ class MpWriter(SegmentWriter):
         results = []
         for _ in self.tasks:
             try:
-                results.append(self.resultqueue.get(timeout=1))
+                result = self.resultqueue.get(timeout=1)
             except queue.Empty:
-                pass
+                continue
+            if result is not None:
+                results.append(result)
 
         if self.multisegment:
             # If we're not merging the segments, we don't care about the runname
